@@ -1,4 +1,55 @@
-import ErgoModel.Exec
+/-
+  C06 — State machine and claim invariants hold on every path.
+  Only property statements live here; lemmas are in ErgoProofs/Lemmas.
+-/
+import ErgoProofs.Lemmas.ReachInv
 namespace Ergo
-theorem C06_placeholder : True := trivial
+
+/-- the transition table and claim rule the code uses (regenerated from model.go on every run) are the documented ones -/
+theorem C06_tables_documented (a b : St) (c : String) :
+    validTransition a b = (a == b || docTransition a b) ∧ claimInvariantOk a c = docClaimOk a c :=
+  ⟨validTransition_eq a b, claimInvariantOk_eq a c⟩
+
+/-- After any sequence of commands every task is in one of the six states, claimed when doing/error, unclaimed when
+    todo/done/canceled; epics are todo and unclaimed. -/
+theorem C06_inv_reach (log : List Event) (h : ReachOK log) : ∃ g, replay log = .ok g ∧ Inv06 g := by
+  obtain ⟨g, hr, hinv⟩ := reach_replay log h
+  exact ⟨g, hr, hinv.i06⟩
+
+/-- Whatever combination of fields a set / claim / create request carries (state, claim incl. empty, implicit claim by
+    --agent, claim without state), if it is accepted the item obeys the claim rule afterwards and its state either did not
+    change or moved along an arrow of the documented table. -/
+theorem C06_accepted_moves_in_table (t : Task) (u : Updates) (agent : String) (now : Time) (evs : List Event)
+    (ht : TaskInv t) (hep : t.isEpic = true → u.state = none ∧ u.claim = none)
+    (h : buildSetEvents t u agent now = .ok evs) :
+    TaskInv (evs.foldl stepTask t) ∧
+    ((evs.foldl stepTask t).st = t.st ∨ docTransition t.st (evs.foldl stepTask t).st = true) :=
+  set_task_inv t u agent now evs ht hep h
+
+/-- a request that names a state is rejected unless the state is one of the six and the table allows the move -/
+theorem C06_state_request_checked (t : Task) (claim : Option String) (now : Time) (s : String) (l : List Event)
+    (h : evState t claim now (some s) = .ok l) :
+    (St.ofString s).valid = true ∧ (t.st = St.ofString s ∨ docTransition t.st (St.ofString s) = true) := by
+  rcases evState_ok h with ⟨hx, -⟩ | ⟨s', hs, hv, htr, -, -⟩
+  · cases hx
+  · injection hs with hs; subst hs; exact ⟨hv, htr⟩
+
+/-- a non-empty claim without a state implies doing — and only where the table allows it -/
+theorem C06_claim_implies_doing_checked (t : Task) (cv : String) (now : Time) (l : List Event) (hcv : cv ≠ "")
+    (hE : t.isEpic = false) (h : evTrail t (some cv) false now = .ok l) :
+    t.st = .doing ∨ docTransition t.st .doing = true := by
+  rcases evTrail_ok h with ⟨hc, -⟩ | ⟨-, htr, -⟩
+  · simp [hE, hcv] at hc
+  · exact htr
+
+/-- a rejected request leaves the store untouched -/
+theorem C06_rejected_untouched (log : List Event) (env : Env) (req : Request) (e : CmdErr)
+    (h : (runCmd log env req).err = some e) : (runCmd log env req).log = log :=
+  (runCmd_err_unchanged log env req e h).1
+
+/-- non-vacuity: the invariant is about real states — a reachable store with a doing, claimed task -/
+example : ∃ t : Task, TaskInv t ∧ t.st = .doing ∧ t.claimedBy = "a" :=
+  ⟨{ (freshTask false "T" "u" "" "t" "" 1) with st := .doing, claimedBy := "a" }, by
+    refine ⟨⟨fun h => by simp [freshTask] at h, fun _ => ⟨rfl, rfl⟩⟩, rfl, rfl⟩⟩
+
 end Ergo
